@@ -165,19 +165,25 @@ def classify(src, out):
         if a == "." and b.isdigit():
             return "space-inserted:..digit", k
         return "space-inserted:%s%s" % (char_class(a) if a not in "].[->" else a, char_class(b) if b not in "].[-=" else b), k
-    if k < len(src) and src[k] == ";":
-        # a `;` (and the trivia attached to it) is missing: is it the one after a last statement?
+    # a piece of the source is missing: look at what was removed (common prefix / suffix stripped)
+    suf = 0
+    while suf < min(len(src), len(out)) - k and src[len(src) - 1 - suf] == out[len(out) - 1 - suf]:
+        suf += 1
+    removed, inserted = src[k:len(src) - suf], out[k:len(out) - suf]
+    if inserted == "" and ";" in removed:
         try:
+            rt, _ = L.lex(removed.encode("utf-8"))
             toks, _ = L.lex(src.encode("utf-8"))
         except L.LexError:
+            rt, toks = None, None
+        if rt is not None and [t.text for t in rt] == [b";"]:
+            pos = len(src[:k].encode("utf-8")) + rt[0].start
+            idx = next((i for i, t in enumerate(toks) if t.start == pos), None)
+            if idx is not None:
+                nxt = toks[idx + 1].text if idx + 1 < len(toks) else b"<eof>"
+                if nxt in (b"end", b"until", b"else", b"elseif", b"<eof>"):
+                    return "dropped:last-semicolon", k
             return "dropped:;", k
-        pos = len(src[:k].encode("utf-8"))
-        idx = next((i for i, t in enumerate(toks) if t.start == pos), None)
-        if idx is not None:
-            nxt = toks[idx + 1].text if idx + 1 < len(toks) else b"<eof>"
-            if nxt in (b"end", b"until", b"else", b"elseif", b"<eof>"):
-                return "dropped:last-semicolon", k
-        return "dropped:;", k
     # trivia in front of the `}` that closes a hole of an interpolated string
     try:
         toks, _ = L.lex(src.encode("utf-8"))
